@@ -132,84 +132,117 @@ def blockScalarLines (literal : Bool) (indent : Nat) : Nat → BlkAcc → S BlkA
           let tb ← skipBlockScalarIndent indent (s.inp.remaining + 2) []
           blockScalarLines literal indent fuel ⟨str, lb, tb, leadingBlank⟩
 
+/-- the indentation digit after a chomping indicator (or none): `(chomping, increment)` -/
+def blockHeaderDigit (startMark : Marker) (ch : Chomping) : S (Chomping × Nat) := do
+  if ← liftI In.nextIsDigit then do
+    let d ← peek
+    if d == '0' then
+      err startMark "while scanning a block scalar, found an indentation indicator equal to 0"
+    else do skipNonBlank; pure (ch, d.toNat - '0'.toNat)
+  else pure (ch, 0)
+
+/-- the chomping indicator after an indentation digit (or none) -/
+def blockHeaderChomp (d : Char) : S (Chomping × Nat) := do
+  let c2 ← peek
+  if c2 == '+' || c2 == '-' then do
+    skipNonBlank
+    pure (if c2 == '+' then Chomping.keep else Chomping.strip, d.toNat - '0'.toNat)
+  else pure (Chomping.clip, d.toNat - '0'.toNat)
+
+/-- the header of a block scalar: chomping and indentation indicators in either order. `isDigit` is
+    what `next_is_digit` answered before the first indicator was looked at. -/
+def blockHeader (startMark : Marker) (c : Char) (isDigit : Bool) : S (Chomping × Nat) :=
+  if c == '+' || c == '-' then do
+    skipNonBlank
+    lookahead 1
+    blockHeaderDigit startMark (if c == '+' then Chomping.keep else Chomping.strip)
+  else if isDigit then do
+    let d ← peek
+    if d == '0' then
+      err startMark "while scanning a block scalar, found an indentation indicator equal to 0"
+    else do
+      skipNonBlank
+      lookahead 1
+      blockHeaderChomp d
+  else pure (Chomping.clip, 0)
+
+/-- the break that ends the header line (kept for clip/keep chomping of a content-less scalar) -/
+def blockChompingBreak : S Str := do
+  if ← liftI In.nextIsBreak then do lookahead 2; readBreak [] else pure []
+
+/-- content indentation: the explicit indicator relative to the parent, or that of the first
+    non-empty line; returns it together with the leading breaks -/
+def blockIndent (increment : Nat) (s : Sc) : S (Nat × Str) :=
+  let indent0 : Nat :=
+    if increment > 0 then (if s.indent ≥ 0 then (s.indent + increment).toNat else increment) else 0
+  if indent0 == 0 then skipBlockScalarFirstLineIndent []
+  else do
+    let tb ← skipBlockScalarIndent indent0 (s.inp.remaining + 2) []
+    pure (indent0, tb)
+
+/-- the value of a block scalar without content lines that ends the stream -/
+def blockEmptyContents (chomping : Chomping) (startMark : Marker) (chompingBreak trailingBreaks : Str) (s : Sc) : Str :=
+  match chomping with
+  | .strip => []
+  | _ => if s.mark.line == startMark.line then []
+         else match chomping with
+           | .clip => chompingBreak
+           | _ => if trailingBreaks.isEmpty then chompingBreak else trailingBreaks
+
+/-- a line that is less indented than the content but deeper than the parent is an error — unless it
+    is a document marker in the first column, which ends the (empty) scalar -/
+def blockMarkerCheck (indent : Nat) (s : Sc) : S Bool :=
+  if s.mark.col < indent && (s.mark.col : Int) > s.indent then do
+    lookahead 4
+    if s.mark.col == 0 then liftI In.nextIsDocumentIndicator else pure false
+  else pure true
+
+/-- chomping: what is appended after the last content line -/
+def blockFinish (chomping : Chomping) (indent : Nat) (a : BlkAcc) (s : Sc) : S Str :=
+  if chomping != .strip then do
+    let z ← liftI In.nextIsZ
+    let str := if z && s.mark.col ≥ max indent 1 then a.str ++ a.leadingBreak ++ ['\n'] else a.str ++ a.leadingBreak
+    pure (if chomping == .keep then str ++ a.trailingBreaks else str)
+  else pure (if chomping == .keep then a.str ++ a.trailingBreaks else a.str)
+
+/-- the content lines and the chomped tail, from the first content line on -/
+def blockContent (literal : Bool) (chomping : Chomping) (indent : Nat) (trailingBreaks : Str) (s : Sc) : S Token := do
+  let marker ← blockMarkerCheck indent s
+  if !marker then err s.mark "wrongly indented line in block scalar"
+  else do
+    let a ← blockScalarLines literal indent (s.inp.remaining + 2) ⟨[], [], trailingBreaks, false⟩
+    let s2 ← getS
+    let str ← blockFinish chomping indent a s2
+    pure ⟨⟨s.mark, s2.mark⟩, .scalar (if literal then ScalarStyle.literal else ScalarStyle.folded) str⟩
+
+/-- after the header line: indentation detection, then either the end of the stream or the content -/
+def blockAfterHeader (literal : Bool) (startMark : Marker) (chomping : Chomping) (increment : Nat)
+    (chompingBreak : Str) : S Token := do
+  if (← lookCh) == '\t' then err startMark "a block scalar content cannot start with a tab"
+  else do
+    let s ← getS
+    let (indent, trailingBreaks) ← blockIndent increment s
+    if ← liftI In.nextIsZ then do
+      let s ← getS
+      pure ⟨⟨startMark, s.mark⟩, .scalar (if literal then ScalarStyle.literal else ScalarStyle.folded)
+        (blockEmptyContents chomping startMark chompingBreak trailingBreaks s)⟩
+    else do
+      let s ← getS
+      blockContent literal chomping indent trailingBreaks s
+
 /-- `scan_block_scalar` after the indicator has been skipped and the non-block indents unrolled:
     header, indentation detection, content lines, chomping (touches only input, mark and flags) -/
 def scanBlockScalarBody (literal : Bool) (startMark : Marker) : S Token := do
-  let style := if literal then ScalarStyle.literal else ScalarStyle.folded
-  -- header
   let c ← lookCh
-  let (chomping, increment) ←
-    if c == '+' || c == '-' then do
-      let ch := if c == '+' then Chomping.keep else Chomping.strip
-      skipNonBlank
-      lookahead 1
-      if ← liftI In.nextIsDigit then do
-        let d ← peek
-        if d == '0' then
-          err startMark "while scanning a block scalar, found an indentation indicator equal to 0"
-        else do skipNonBlank; pure (ch, d.toNat - '0'.toNat)
-      else pure (ch, 0)
-    else if ← liftI In.nextIsDigit then do
-      let d ← peek
-      if d == '0' then
-        err startMark "while scanning a block scalar, found an indentation indicator equal to 0"
-      else do
-        skipNonBlank
-        lookahead 1
-        let c2 ← peek
-        if c2 == '+' || c2 == '-' then do
-          skipNonBlank
-          pure (if c2 == '+' then Chomping.keep else Chomping.strip, d.toNat - '0'.toNat)
-        else pure (Chomping.clip, d.toNat - '0'.toNat)
-    else pure (Chomping.clip, 0)
+  let isDigit ← liftI In.nextIsDigit
+  let (chomping, increment) ← blockHeader startMark c isDigit
   let _ ← skipWsToEol .yes
   lookahead 1
   if !(← liftI In.nextIsBreakz) then
     err startMark "while scanning a block scalar, did not find expected comment or line break"
   else do
-    let chompingBreak ← if ← liftI In.nextIsBreak then do lookahead 2; readBreak [] else pure []
-    if (← lookCh) == '\t' then err startMark "a block scalar content cannot start with a tab"
-    else do
-      let s ← getS
-      let indent0 : Nat :=
-        if increment > 0 then (if s.indent ≥ 0 then (s.indent + increment).toNat else increment) else 0
-      let (indent, trailingBreaks) ←
-        if indent0 == 0 then skipBlockScalarFirstLineIndent []
-        else do
-          let tb ← skipBlockScalarIndent indent0 (s.inp.remaining + 2) []
-          pure (indent0, tb)
-      if ← liftI In.nextIsZ then do
-        let s ← getS
-        let contents :=
-          match chomping with
-          | .strip => []
-          | _ => if s.mark.line == startMark.line then []
-                 else match chomping with
-                   | .clip => chompingBreak
-                   | _ => if trailingBreaks.isEmpty then chompingBreak else trailingBreaks
-        pure ⟨⟨startMark, s.mark⟩, .scalar style contents⟩
-      else do
-        let s ← getS
-        -- a document marker in the first column ends the (empty) scalar
-        let marker ←
-          if s.mark.col < indent && (s.mark.col : Int) > s.indent then do
-            lookahead 4
-            if s.mark.col == 0 then liftI In.nextIsDocumentIndicator else pure false
-          else pure true
-        if !marker then
-          err s.mark "wrongly indented line in block scalar"
-        else do
-          let startMark2 := s.mark
-          let a ← blockScalarLines literal indent (s.inp.remaining + 2) ⟨[], [], trailingBreaks, false⟩
-          let s ← getS
-          let str := a.str
-          let str ←
-            if chomping != .strip then do
-              let str := str ++ a.leadingBreak
-              if (← liftI In.nextIsZ) && s.mark.col ≥ max indent 1 then pure (str ++ ['\n']) else pure str
-            else pure str
-          let str := if chomping == .keep then str ++ a.trailingBreaks else str
-          pure ⟨⟨startMark2, s.mark⟩, .scalar style str⟩
+    let chompingBreak ← blockChompingBreak
+    blockAfterHeader literal startMark chomping increment chompingBreak
 
 def scanBlockScalar (literal : Bool) : S Token := do
   let startMark ← getMark
